@@ -49,7 +49,15 @@ type hostile struct {
 	raw    []byte // raw bytes instead of a frame
 	repeat int
 	close  bool
+	// prelude: that many metaObject calls to the same object are written
+	// first, in the same burst (the object's mailbox is busy when the
+	// frames proper arrive)
+	prelude int
 }
+
+// childPlaceholder stands for the identifier of the second object (known
+// only at run time); the payload of such a frame is that identifier.
+const childPlaceholder = 0xC41D0000
 
 // otherHandler is a signal handler id registered by a well-behaved client on
 // another connection during set-up.
@@ -94,6 +102,8 @@ func alphabet() []hostile {
 		{name: "unknown-object", typ: net.Call, svc: 1, obj: 999, act: 100, pay: fx.Int32(1)},
 		{name: "unknown-service", typ: net.Call, svc: 9, obj: 1, act: 100, pay: fx.Int32(1)},
 		{name: "12-calls-unread", typ: net.Call, svc: 1, obj: 1, act: 100, pay: fx.Int32(2), repeat: 12},
+		{name: "terminate(second-object)x2", typ: net.Call, svc: 1, obj: childPlaceholder, act: 3, repeat: 1},
+		{name: "6-calls+terminate(second-object)x2", typ: net.Call, svc: 1, obj: childPlaceholder, act: 3, repeat: 1, prelude: 6},
 		{name: "half-frame-then-close", raw: []byte{0x42, 0xde, 0xad, 0x42, 1, 0, 0, 0, 40, 0, 0}, close: true},
 		{name: "close", close: true},
 	}
@@ -148,13 +158,22 @@ func body(n int, bounded bool, custom ...func() []hostile) func() {
 		disconnect := vrt.ChooseFree(2, "abrupt-disconnect") == 1
 		vrt.Explore()
 		names := ""
+		childNamed := false // the hostile client asked for the removal of the second object
 		for _, f := range seq {
 			names += f.name + ";"
 			if f.raw != nil {
 				h.SendRaw(f.raw)
 			} else if f.typ != 0 {
+				obj, pay := f.obj, f.pay
+				if obj == childPlaceholder {
+					obj, pay = childID, u32(childID)
+					childNamed = true
+				}
+				for r := 0; r < f.prelude; r++ {
+					h.Send(net.Call, f.svc, obj, 2, h.NextID(), u32(obj))
+				}
 				for r := 0; r <= f.repeat; r++ {
-					if h.Send(f.typ, f.svc, f.obj, f.act, h.NextID(), f.pay) != nil {
+					if h.Send(f.typ, f.svc, obj, f.act, h.NextID(), pay) != nil {
 						break
 					}
 				}
@@ -178,6 +197,9 @@ func body(n int, bounded bool, custom ...func() []hostile) func() {
 			}
 			if v, err := c.Probe(1).Echo(21); err == nil && v == probe.EchoResult(21) {
 				okRoot = true
+			}
+			if childNamed {
+				return // the hostile client named the second object for removal: it may be gone
 			}
 			if v, err := c.Probe(childID).Echo(22); err == nil && v == probe.EchoResult(22) {
 				okChild = true
@@ -205,7 +227,7 @@ func body(n int, bounded bool, custom ...func() []hostile) func() {
 				stalled = b.Thread
 			}
 		}
-		served := pw.Done() && gw.Done() && okRoot && okChild && okGood
+		served := pw.Done() && gw.Done() && okRoot && (okChild || childNamed) && okGood
 		switch lws := vrt.LockWaiters(); {
 		case stalled != "" && !served:
 			vrt.Failf("=slow-consumer-stall", "thread %s is blocked writing to the hostile peer, which never reads (finite send buffer), after [%s]; fresh client served: %v, established client served: %v", stalled, names, pw.Done() && okRoot && okChild, gw.Done() && okGood)
@@ -217,7 +239,7 @@ func body(n int, bounded bool, custom ...func() []hostile) func() {
 			vrt.Failf("=established-client-not-served/"+set, "an established client is not served after [%s] (%s buffers): blocked on %s", names, model, gw.BlockedOn())
 		case !okRoot:
 			vrt.Failf("=service-object-dead/"+set, "echo on the service object fails after [%s] (%s buffers)", names, model)
-		case !okChild:
+		case !okChild && !childNamed:
 			vrt.Failf("=second-object-dead/"+set, "echo on the second object fails after [%s] (%s buffers)", names, model)
 		case !okGood:
 			vrt.Failf("=established-client-refused/"+set, "an established client gets an error after [%s] (%s buffers)", names, model)
